@@ -73,6 +73,59 @@ pub fn dp_queries(tier: Tier) -> Vec<DpQuery> {
     v
 }
 
+fn with_owners(tables: &[&'static str]) -> Vec<&'static str> {
+    // the tables whose rows decide ownership along the foreign-key path must be enumerated too
+    let mut t: Vec<&'static str> = tables.to_vec();
+    if t.contains(&"items") && !t.contains(&"orders") {
+        t.push("orders");
+    }
+    if t.contains(&"orders") && !t.contains(&"users") {
+        t.push("users");
+    }
+    let order = ["users", "orders", "items", "ref"];
+    t.sort_by_key(|x| order.iter().position(|o| o == x).unwrap_or(9));
+    t
+}
+
+/// Composed aggregation programs (sqlgen2): an aggregate constructor on top of every level-1 term.
+/// quick: {A2, A4} over {P2, P7, A3, A4, A5, A10, D2, O1} of users / orders and over the inner / left joins of users
+/// and orders; thorough: every depth-2 term whose top constructor is an aggregate, and every depth-2 term that
+/// contains an aggregate below a projection / filter / DISTINCT
+pub fn dp_composed(tier: Tier) -> Vec<DpQuery> {
+    let mut out = vec![];
+    for r in crate::sqlgen2::compose(2) {
+        if r.depth != 2 || r.tables.iter().any(|t| !matches!(*t, "users" | "orders" | "items" | "ref")) || r.tables.iter().all(|t| *t == "ref") {
+            continue;
+        }
+        if r.sql.starts_with("WITH") {
+            continue; // the CTE embedding is the same relation as the derived-table one
+        }
+        let top = r.term.split('(').next().unwrap_or("").to_string();
+        let inner = r.term[top.len() + 1..].to_string();
+        let top_is_agg = top.starts_with('A');
+        let has_agg = top_is_agg || inner.starts_with('A') || inner.contains("(A") || inner.contains(".s3(") || inner.contains(".s4(");
+        if !has_agg {
+            continue;
+        }
+        if tier == Tier::Quick {
+            let inner_ok = ["P2(", "P7(", "A3(", "A4(", "A5(", "A10(", "D2(", "O1("].iter().any(|w| inner.starts_with(w)) && (inner.contains("(users)") || inner.contains("(orders)"))
+                || (inner.starts_with("J.inner.eq.s2(") || inner.starts_with("J.left.eq.s2(")) && (inner.contains("(users, orders)") || inner.contains("(orders, users)"));
+            if !(matches!(top.as_str(), "A2" | "A4") && inner_ok) {
+                continue;
+            }
+        }
+        let mut tags: Vec<&'static str> = vec!["composed"];
+        tags.push(if top_is_agg { "agg-on-top" } else { "agg-below" });
+        for t in &r.tags {
+            if matches!(*t, "ungrouped" | "grouped" | "join" | "limit" | "distinct" | "distinct-aggregate" | "key-not-projected" | "filter" | "setop" | "left" | "right" | "full" | "cross") && !tags.contains(t) {
+                tags.push(t);
+            }
+        }
+        out.push(DpQuery { sql: r.sql.clone(), tables: with_owners(&r.tables), tags });
+    }
+    out
+}
+
 /// C03 needs no database: every combination of 1-2 (thorough: 1-3) aggregates of the alphabet x
 /// grouping (none / public key / private key / mixed) on a one-table and a foreign-key-path subject
 pub fn c03_queries(tier: Tier) -> Vec<DpQuery> {
@@ -187,6 +240,8 @@ pub struct Compiled {
     pub dp_name: String,
     pub dp: DpParameters,
     pub original: Arc<Relation>,
+    /// structural features of the original relation (features.rs)
+    pub features: Vec<String>,
     pub rewritten: Arc<Relation>,
     pub event_gaussians: Vec<f64>,
     pub event_eps_delta: Vec<(f64, f64)>,
@@ -217,7 +272,7 @@ pub fn compile_dp_with(q: &DpQuery, dp_name: &str, dp: &DpParameters, relations:
         let mut ed = vec![];
         flatten_event(out.dp_event(), &mut g, &mut ed);
         let ir = analyse(out.relation());
-        Ok(Compiled { query: q.clone(), dp_name: dp_name.to_string(), dp: dp.clone(), original: Arc::new(rel), rewritten: Arc::new(out.relation().clone()), event_gaussians: g, event_eps_delta: ed, ir })
+        Ok(Compiled { query: q.clone(), dp_name: dp_name.to_string(), dp: dp.clone(), features: crate::features::features(&rel), original: Arc::new(rel), rewritten: Arc::new(out.relation().clone()), event_gaussians: g, event_eps_delta: ed, ir })
     });
     match r {
         Ok(Ok(c)) => CompileOutcome::Ok(c),
@@ -396,15 +451,46 @@ pub fn run(ctx: &Ctx, which: Which) -> Report {
     }
     let world = if ctx.tier == Tier::Quick { World::compact() } else { World::standard() };
     let relations = world.relations();
-    let (queries, grid) = if which == Which::C03 { (c03_queries(ctx.tier), c03_param_grid(ctx.tier)) } else { (dp_queries(ctx.tier), dp_param_grid(ctx.tier)) };
+    let (queries, grid) = if which == Which::C03 {
+        (c03_queries(ctx.tier), c03_param_grid(ctx.tier))
+    } else {
+        let mut q = dp_queries(ctx.tier);
+        q.extend(dp_composed(ctx.tier));
+        (q, dp_param_grid(ctx.tier))
+    };
     let mut configs: Vec<Compiled> = vec![];
+    // compile every (query, parameters) configuration, on 16 fresh threads, results in enumeration order
+    let mut work: Vec<(&DpQuery, &String, &DpParameters)> = vec![];
     for q in &queries {
-        for (name, dp) in &grid {
+        for (gi, (name, dp)) in grid.iter().enumerate() {
+            // the composed programs are compiled with the first two parameter points (multiplicity bound 100 and 1)
+            if q.tags.contains(&"composed") && which != Which::C03 && gi >= 2 {
+                continue;
+            }
             let id = format!("{} [{}]", q.sql, name);
             if !ctx.wants(&id) {
                 continue;
             }
-            match compile_dp(q, name, dp, &relations) {
+            work.push((q, name, dp));
+        }
+    }
+    let slice = ((work.len() + 15) / 16).max(1);
+    let mut outcomes: Vec<CompileOutcome> = vec![];
+    std::thread::scope(|sc| {
+        let handles: Vec<_> = work
+            .chunks(slice)
+            .map(|part| {
+                let relations = &relations;
+                std::thread::Builder::new().stack_size(64 << 20).spawn_scoped(sc, move || part.iter().map(|(q, name, dp)| compile_dp(q, name, dp, relations)).collect::<Vec<_>>()).expect("spawn")
+            })
+            .collect();
+        for h in handles {
+            outcomes.extend(h.join().expect("compile thread"));
+        }
+    });
+    for ((q, _name, _dp), outcome) in work.iter().zip(outcomes.into_iter()) {
+        {
+            match outcome {
                 CompileOutcome::Ok(c) => {
                     head.add_count("configs_accepted", 1);
                     for t in &q.tags {
@@ -561,8 +647,15 @@ fn check_c01(c: &Compiled, plan: &crate::sqlite::Plan, e: &Engine, world: &World
                     match c.ir.limits.first() {
                         Some(l) if n.column.contains("COUNT_DISTINCT") => l.cu.sqrt(),
                         _ => {
+                            // the scale-factor literal was not found in the IR (the clipping is spelled in a way the
+                            // reader does not know): fall back on the statement itself, C = sigma / noise multiplier,
+                            // with the smallest Gaussian multiplier recorded in the returned event (the largest C)
+                            let recorded = c.event_gaussians.iter().cloned().fold(f64::INFINITY, f64::min);
                             if n.sigma == 0.0 {
                                 0.0
+                            } else if recorded.is_finite() && recorded > 0.0 {
+                                r.add_count("clip_bound_taken_from_sigma_over_recorded_multiplier", 1);
+                                n.sigma / recorded
                             } else {
                                 r.machinery_errors.push(format!("no clipping bound found for noised column {} of {}", n.column, case_id));
                                 continue;
@@ -584,6 +677,9 @@ fn check_c01(c: &Compiled, plan: &crate::sqlite::Plan, e: &Engine, world: &World
             let norm = l2_diff(&va, &vb);
             if norm > 0.0 {
                 r.distinct_nontrivial += 1;
+            }
+            if std::env::var("QV_DEBUG_C01").is_ok() && norm > 0.0 {
+                eprintln!("C01 {} col={} sigma={} clip_ir={:?} cbound={} norm={} recorded={:?} input={}.{}", c.dp_name, n.column, n.sigma, n.clip, cbound, norm, c.event_gaussians, n.input_node, n.input_column);
             }
             // reach: how close to the bound the exploration got
             let key = format!("max_norm_over_C[{}]", c.query.tags.join("+"));
@@ -763,12 +859,40 @@ fn check_c03(c: &Compiled, r: &mut Report) {
 
 // ---------------------------------------------------------------------------------------
 
+thread_local! {
+    static KNOWN_C09: std::collections::BTreeSet<String> = crate::features::open_known("C09");
+}
+
+/// `kind tags=..` when that is a known finding, else the first known `kind @feature` of the original relation, else
+/// `kind tags=..` (new)
+fn c09_sig(kind: &str, c: &Compiled) -> String {
+    let tags = c.query.tags.join("+");
+    let by_tags = format!("{kind} tags={tags}");
+    KNOWN_C09.with(|k| {
+        if k.contains(&by_tags) {
+            return by_tags.clone();
+        }
+        for f in &c.features {
+            let s = format!("{kind} @{f}");
+            if k.contains(&s) {
+                return s;
+            }
+        }
+        by_tags.clone()
+    })
+}
+
 fn check_c09(c: &Compiled, plan: &crate::sqlite::Plan, e: &Engine, world: &World, db: &Db, r: &mut Report) {
     // public-valued keys or ungrouped only
     if c.query.tags.iter().any(|t| matches!(*t, "private-key" | "mixed-keys" | "computed-key" | "nested-dp" | "limit-below")) {
         return;
     }
     let case_id = format!("{} [{}]", c.query.sql, c.dp_name);
+    // keys released by thresholding are dropped at random: exactness is stated for public keys / ungrouped only
+    if !c.ir.thresholds.is_empty() {
+        r.add_count("skipped_private_keys(thresholding)", 1);
+        return;
+    }
     // precondition (data conform to the declared schema): every protected row has an owner, i.e.
     // no dangling foreign key on the privacy-unit path (a row nobody owns cannot be attributed)
     for t in ["orders", "items"] {
@@ -807,29 +931,18 @@ fn check_c09(c: &Compiled, plan: &crate::sqlite::Plan, e: &Engine, world: &World
         r.distinct_nontrivial += 1;
     }
     if dp.cols.len() != orig.cols.len() {
-        r.violation(format!("column-count tags={}", c.query.tags.join("+")), &case_id, json!({"query": c.query.sql, "original": orig.show(), "dp": dp.show()}));
+        r.violation(c09_sig("column-count", c), &case_id, json!({"query": c.query.sql, "original": orig.show(), "dp": dp.show()}));
         return;
     }
-    // key columns = text or the first columns before aggregates: identify by name (group keys keep their names)
-    let agg_kind = |name: &str| -> &'static str {
-        // from the select list of the query
-        let sql = c.query.sql.to_lowercase();
-        for (k, f) in [("count", "count("), ("sum", "sum("), ("avg", "avg("), ("var", "variance("), ("std", "stddev(")] {
-            if sql.contains(&format!("{f}")) {
-                // find `f...) AS name`
-                if let Some(pos) = sql.find(&format!(" as {}", name.to_lowercase())) {
-                    let before = &sql[..pos];
-                    if let Some(start) = before.rfind(f) {
-                        if !before[start..].contains(" as ") {
-                            return k;
-                        }
-                    }
-                }
-            }
-        }
-        "key"
-    };
-    let kinds: Vec<&'static str> = orig.cols.iter().map(|n| agg_kind(n)).collect();
+    // kind of every output column, read from the outermost select list of the parsed query text
+    let kinds_by_pos = select_list_kinds(&c.query.sql);
+    let agg_kind = |i: usize| -> &'static str { kinds_by_pos.get(i).cloned().unwrap_or("key") };
+    let kinds: Vec<&'static str> = (0..orig.cols.len()).map(|i| agg_kind(i)).collect();
+    // rows are matched by their key columns: a grouped result without any key column cannot be aligned
+    if !kinds.iter().any(|k| *k == "key") && (orig.rows.len() > 1 || dp.rows.len() > 1) {
+        r.add_count("skipped_grouped_result_without_key_column", 1);
+        return;
+    }
     let key_idx: Vec<usize> = (0..kinds.len()).filter(|i| kinds[*i] == "key").collect();
     let keyf = |row: &Vec<Cell>| key_idx.iter().map(|i| row[*i].show()).collect::<Vec<_>>().join("|");
     let dp_rows: BTreeMap<String, &Vec<Cell>> = dp.rows.iter().map(|row| (keyf(row), row)).collect();
@@ -839,7 +952,7 @@ fn check_c09(c: &Compiled, plan: &crate::sqlite::Plan, e: &Engine, world: &World
             Some(d) => *d,
             None => {
                 r.violation(
-                    format!("group-missing tags={}", c.query.tags.join("+")),
+                    c09_sig("group-missing", c),
                     &case_id,
                     json!({"query": c.query.sql, "dp_parameters": c.dp_name, "group": k, "original": orig.show(), "dp": dp.show(), "database": show_db(db)}),
                 );
@@ -875,7 +988,7 @@ fn check_c09(c: &Compiled, plan: &crate::sqlite::Plan, e: &Engine, world: &World
             };
             if !ok {
                 r.violation(
-                    format!("aggregate-differs kind={kind} tags={}", c.query.tags.join("+")),
+                    c09_sig(&format!("aggregate-differs kind={kind}"), c),
                     &case_id,
                     json!({"query": c.query.sql, "dp_parameters": c.dp_name, "column": orig.cols[i], "group": k, "true_value": o.show(), "dp_value_with_zero_noise": d.show(), "database": show_db(db), "original": orig.show(), "dp": dp.show()}),
                 );
@@ -894,7 +1007,7 @@ fn check_c09(c: &Compiled, plan: &crate::sqlite::Plan, e: &Engine, world: &World
             r.add_count("extra_public_key_rows", 1);
             if !zero {
                 r.violation(
-                    format!("extra-group-with-data tags={}", c.query.tags.join("+")),
+                    c09_sig("extra-group-with-data", c),
                     &case_id,
                     json!({"query": c.query.sql, "extra_row": drow.iter().map(|c| c.show()).collect::<Vec<_>>(), "original": orig.show(), "dp": dp.show(), "database": show_db(db)}),
                 );
@@ -902,6 +1015,42 @@ fn check_c09(c: &Compiled, plan: &crate::sqlite::Plan, e: &Engine, world: &World
             }
         }
     }
+}
+
+/// kinds of the items of the outermost select list: "key" (plain column / alias of one), "count", "sum", "avg", "var",
+/// "std" (a single aggregate call, DISTINCT or not), "other" (anything else: expressions over aggregates, min / max ...)
+pub fn select_list_kinds(sql: &str) -> Vec<&'static str> {
+    use qrlew::ast;
+    let q = match parse(sql) {
+        Ok(q) => q,
+        Err(_) => return vec![],
+    };
+    let sel = match q.body.as_ref() {
+        ast::SetExpr::Select(s) => s,
+        _ => return vec![],
+    };
+    sel.projection
+        .iter()
+        .map(|it| {
+            let e = match it {
+                ast::SelectItem::ExprWithAlias { expr, .. } => expr,
+                ast::SelectItem::UnnamedExpr(expr) => expr,
+                _ => return "other",
+            };
+            match e {
+                ast::Expr::Identifier(_) | ast::Expr::CompoundIdentifier(_) => "key",
+                ast::Expr::Function(f) => match f.name.to_string().to_lowercase().as_str() {
+                    "count" => "count",
+                    "sum" => "sum",
+                    "avg" => "avg",
+                    "variance" | "var" | "var_samp" => "var",
+                    "stddev" | "std" | "stddev_samp" => "std",
+                    _ => "other",
+                },
+                _ => "other",
+            }
+        })
+        .collect()
 }
 
 fn group_count(e: &Engine, q: &DpQuery, key: &str) -> f64 {
